@@ -39,7 +39,9 @@ open Parsley Parsley.Obj Parsley.Spelling Parsley.DocSpec Driver Driver.C03
            (see `genReth` and Driver/C03.lean `RetCase`): must be rejected; shadowed entries are controls
       zero <hex> <seed> <variant>   OBJECT NUMBER 0 AS AN ORDINARY OBJECT (in-use / compressed entry at number 0 in the base or
            added, redefined, freed, re-added by an update; tables, cross-reference streams, hybrids) and the boundary
-           object numbers 1, 2^16 +- 1, 2^31 +- 1, 2^32 +- 1 added by an update (see `genZero`) -/
+           object numbers 1, 2^16 +- 1, 2^31 +- 1, 2^32 +- 1 added by an update (see `genZero`)
+      emp <hex> <seed> <variant>   EMPTY SUBSECTIONS (`N 0`) inserted into the classic tables of a history at every position
+           (see `genEmp`): they contribute no entry, the load is unchanged -/
 
 /-- the revisions of a history, all /Prev automatic -/
 def genRevs (seed variant maxRevs : Nat) : List Rev × Bytes × Bool × Rng :=
@@ -674,6 +676,141 @@ def genZero (seed variant : Nat) : Scene :=
   let revs := if objs2.isEmpty then [base, upd] else [base, upd, top]
   ⟨garbage, bin == 1, revs.map fun x => (x, .auto), some (List.range revs.length)⟩
 
+/-! ### EMPTY SUBSECTIONS in classic tables (`emp`)
+
+    `emp <hex> <seed> <variant>`: a base revision (objects 1 = root, 2, 3, 5, 6, 8) and one or two incremental updates
+    (update 1 redefines 3, frees 5, adds 10; update 2 redefines 2 and 6, adds 12), every revision a classic table or a
+    hybrid (seed), so every table has several subsections.  Empty subsections (`N 0`, N = 0 / the next subsection's
+    first number / 99; contributing NO entry) are inserted into the tables:
+      variant % 8         0 one leading, 1 one after the first subsection, 2 two in a row there, 3 three in a row there,
+                          4 one trailing (before `trailer`), 5 one before the LAST subsection, 6 at every position,
+                          7 two leading ones
+      (variant / 8) % 3   in the base's table only / the newest update's only / every revision's
+      (variant / 24) % 2  two / three revisions
+    48 combinations.  The encoder (`renderRevEmp`) is Spec/Doc's renderRev with `empSubs` applied to the table's
+    subsections; the oracle is `resolve` of what the revisions said: an empty subsection changes nothing. -/
+
+def emptySub (start k : Nat) : XrefSpec.TSub :=
+  { start, wStart := (natDigits start).length + k % 2, wCount := 1, lead := (if k % 3 == 1 then [32] else []),
+    hdrEol := (if k % 2 == 0 then [10] else [13, 10]), ents := [] }
+
+def empSubs (pat salt : Nat) (subs : List XrefSpec.TSub) : List XrefSpec.TSub :=
+  let st (i : Nat) : Nat := match (salt + i) % 3 with | 0 => 0 | 1 => (subs[i]?.map (·.start)).getD 7 | _ => 99
+  let e (i k : Nat) : XrefSpec.TSub := emptySub (st i) k
+  let n := subs.length
+  match pat with
+  | 0 => [e 0 0] ++ subs
+  | 1 => subs.take 1 ++ [e 1 0] ++ subs.drop 1
+  | 2 => subs.take 1 ++ [e 1 0, e 2 1] ++ subs.drop 1
+  | 3 => subs.take 1 ++ [e 1 0, e 2 1, e 0 2] ++ subs.drop 1
+  | 4 => subs ++ [e n 0]
+  | 5 => subs.take (n - 1) ++ [e (n - 1) 1] ++ subs.drop (n - 1)
+  | 6 => [e 0 0] ++ subs.zipIdx.flatMap fun (s, i) => [s, e (i + 1) i]
+  | _ => [e 0 0, e 1 1] ++ subs
+
+/-- Spec/Doc's `renderRev` with empty subsections inserted into the table (`pat` = none: renderRev itself) -/
+def renderRevEmp (r : Rev) (pat : Option Nat) (salt : Nat) (pos : Nat) (prev : Option Nat) : Bytes × Nat × Said :=
+  match pat with
+  | none => renderRev r pos prev
+  | some pat =>
+  let lay := r.lay
+  let (body, us0, vals) := renderObjs r.objs pos
+  let us := relabelUse lay.relabel (swapOfs lay.swap us0)
+  let p1 := pos + body.length
+  let uses : List XE := us.map fun u => ⟨u.1, 1, u.2.2, u.2.1⟩
+  let mems : List XE := r.members.map fun m => ⟨m.1, 2, m.2.1, m.2.2.1⟩
+  let frees : List XE := (if r.zero then [⟨0, 0, 0, 65535⟩] else []) ++ r.frees.map fun f => ⟨f.1, 0, 0, f.2⟩
+  let memVals : List (DocSpec.ObjId × Obj) := r.members.map fun m => ((m.1, 0), m.2.2.2)
+  let maxNum := maxOf ((uses ++ mems ++ frees).map (·.num) ++ [lay.xnum])
+  let freed := r.frees.map (·.1)
+  match lay.kind with
+  | 0 =>
+    let es := sortXE (uses ++ frees)
+    let table := XrefSpec.encTable (empSubs pat salt (tableSubs lay es))
+    let tr : List (Bytes × Bytes) := rotate
+      ([(bs "Size", natDigits (maxNum + 1)), (bs "Root", refBytes r.root)] ++
+       (match prev with | some p => [(bs "Prev", pad10 p)] | none => [])) lay.dictOrder
+    let (w, c) := wsOpt lay.ch
+    let (d, c) := spellRaw tr c
+    (body ++ table ++ bs "trailer" ++ w ++ bs "<<" ++ d ++ [10] ++ tailBytes p1 c, p1, ⟨vals, freed, r.root⟩)
+  | 1 => renderRev r pos prev
+  | _ =>
+    let (xb, xv) := renderXrefStream { lay with omitIndex := false } p1 (sortXE mems) (maxNum + 1) none none
+    let p2 := p1 + xb.length
+    let hidden : List XE := r.members.map fun m => ⟨m.1, 0, 0, lay.hiddenGen⟩
+    let es := sortXE (uses ++ frees ++ hidden ++ [⟨lay.xnum, 1, p1, 0⟩])
+    let table := XrefSpec.encTable (empSubs pat salt (tableSubs lay es))
+    let tr : List (Bytes × Bytes) := rotate
+      ([(bs "Size", natDigits (maxNum + 1)), (bs "Root", refBytes r.root), (bs "XRefStm", natDigits p1)] ++
+       (match prev with | some p => [(bs "Prev", pad10 p)] | none => [])) lay.dictOrder
+    let (w, c) := wsOpt lay.ch
+    let (d, c) := spellRaw tr c
+    (body ++ xb ++ table ++ bs "trailer" ++ w ++ bs "<<" ++ d ++ [10] ++ tailBytes p2 c, p2,
+     ⟨vals ++ memVals ++ [((lay.xnum, 0), xv)], freed, r.root⟩)
+
+def renderRevsEmp (salt : Nat) : List (Rev × Option Nat) → Nat → Option Nat → Bytes × List Said
+  | [], _, _ => ([], [])
+  | (r, pat) :: t, pos, prev =>
+    let (b, x, said) := renderRevEmp r pat salt pos prev
+    let (bt, saids) := renderRevsEmp (salt + 1) t (pos + b.length) (some x)
+    (b ++ bt, said :: saids)
+
+structure EmpCase where
+  garbage : Bytes
+  binary : Bool
+  salt : Nat
+  revs : List (Rev × Option Nat)
+
+def renderEmp (c : EmpCase) : Bytes × List Said :=
+  let h := header c.binary
+  let (b, saids) := renderRevsEmp c.salt c.revs h.length none
+  (c.garbage ++ h ++ b, saids)
+
+def empVariants : Nat := 48
+
+def genEmp (seed variant : Nat) : EmpCase :=
+  let r := Rng.mk' (seed * 5381 + variant * 37 + 17)
+  let pat := variant % 8
+  let who := (variant / 8) % 3
+  let n := 2 + (variant / 24) % 2
+  let (garbage, r) := rndGarbage r
+  let (bin, r) := r.nat 2
+  let (salt, r) := r.nat 3
+  let mk (r : Rng) (nums : List Nat) : List DObj × Rng :=
+    nums.foldl (fun (acc : List DObj × Rng) k => let (o, r) := rndValObj acc.2 k 0; (acc.1 ++ [o], r)) ([], r)
+  let lay (r : Rng) (i : Nat) : RevLay × Rng :=
+    let (k, r) := r.nat 3
+    let (l, r) := rndLay r (if k == 2 then 2 else 0) (40 + i) 65535
+    ({ l with up := false }, r)
+  let (o0, r) := mk r [1, 2, 3, 5, 6, 8]
+  let (o0, r) := shuffleL o0 r
+  let (o1, r) := mk r [3, 10]
+  let (o1, r) := shuffleL o1 r
+  let (o2, r) := mk r [2, 6, 12]
+  let (o2, r) := shuffleL o2 r
+  let (l0, r) := lay r 0
+  let (l1, r) := lay r 1
+  let (l2, _) := lay r 2
+  let base : Rev := { objs := o0, members := [], frees := [], zero := true, root := (1, 0), lay := l0 }
+  let u1 : Rev := { objs := o1, members := [], frees := [(5, 0)], zero := false, root := (1, 0), lay := l1 }
+  let u2 : Rev := { objs := o2, members := [], frees := [], zero := false, root := (1, 0), lay := l2 }
+  let revs := [base, u1, u2].take n
+  ⟨garbage, bin == 1, salt,
+   revs.zipIdx.map fun (x, i) => (x, if who == 2 || (who == 0 && i == 0) || (who == 1 && i == n - 1) then some pat else none)⟩
+
+def judgeEmp (c : EmpCase) (hex impl : String) : String :=
+  let (bytes, saids) := renderEmp c
+  if hexOfBytes bytes != hex then "bad generator-mismatch the case does not re-derive from its seed"
+  else
+    let want := match resolve saids with
+      | (defs, some root) => s!"ok {root.1} {root.2}" ++ showDefs defs
+      | (_, none) => "rejected"
+    let got := impl.trimAscii.toString
+    if got == want then "ok"
+    else if got.startsWith "panic" || got.startsWith "crash" || got.startsWith "hang" then s!"bad panic-or-crash {got.take 80}"
+    else if got == "rejected" then "bad wellformed-rejected rejected"
+    else s!"bad wrong-merge want={(want.take 300)}"
+
 def judge (case impl : String) : String :=
   match judgeCommon case impl with
   | some v => v
@@ -702,6 +839,7 @@ def judge (case impl : String) : String :=
       if impl.trimAscii.toString == "nomodel" then "skip" else      -- (the model's side of an oracle-only case)
       let v := judgeScene (genLong seed.toNat! len.toNat!) hex impl
       if v.startsWith "bad wrong-load" then "bad wrong-merge " ++ " ".intercalate ((v.splitOn " ").drop 2) else v
+    | ["emp", hex, seed, variant] => judgeEmp (genEmp seed.toNat! variant.toNat!) hex impl
     | ["zero", hex, seed, variant] =>
       let v := judgeScene (genZero seed.toNat! variant.toNat!) hex impl
       if v.startsWith "bad wrong-load" then "bad wrong-merge " ++ " ".intercalate ((v.splitOn " ").drop 2) else v
@@ -754,6 +892,12 @@ def gen (seed n : Nat) (tier : String) (emit : String → IO Unit) : IO Unit := 
       let s := (seed + 29 * rep) * 1039 + v
       let (bytes, _, _, _) := render (genZero s v)
       emit s!"zero {hexOfBytes bytes} {s} {v}"
+  -- empty subsections (`N 0`) in classic tables at every position: all 48 combinations, three documents each
+  for rep in List.range (if tier == "thorough" then 9 else 3) do
+    for v in List.range empVariants do
+      let s := (seed + 31 * rep) * 1049 + v
+      let (bytes, _) := renderEmp (genEmp s v)
+      emit s!"emp {hexOfBytes bytes} {s} {v}"
   for k in List.range n do
     let s := seed * 100003 + k
     let v := k % 8 + (if tier == "thorough" && k % 3 == 0 then 1000 else 0)
@@ -786,6 +930,7 @@ def nontrivial (line : String) : Bool :=
   | "hist" :: hex :: _ => hex.length ≥ 1000
   | "big" :: _ => true
   | "zero" :: _ => true
+  | "emp" :: _ => true
   | "redef" :: _ => true
   | "pack" :: _ => true
   | "packh" :: _ => true
